@@ -15,9 +15,9 @@ for id in $ids; do
 done
 dirs=$(ls -d "$cov"/* | paste -sd, -)
 mkdir -p /verif/coverage
-go tool covdata func -i="$dirs" > /verif/coverage/func_all.txt 2> "$scratch/covdata.err" || cat "$scratch/covdata.err"
-for id in $ids; do go tool covdata func -i="$cov/$id" 2>/dev/null | awk -v id=$id '$NF!="0.0%" && $1!="total" {print id, $1, $2, $NF}' ; done > /verif/coverage/func_by_check.txt
+go tool covdata func -i="$dirs" 2> "$scratch/covdata.err" | grep -v "/verif/" > /verif/coverage/func_all.txt; cat "$scratch/covdata.err"
+for id in $ids; do go tool covdata func -i="$cov/$id" 2>/dev/null | grep -v "/verif/" | awk -v id=$id '$NF!="0.0%" && $1!="total" {print id, $1, $2, $NF}' ; done > /verif/coverage/func_by_check.txt
 awk '$NF=="0.0%" {print $1, $2}' /verif/coverage/func_all.txt > /verif/coverage/unreached.txt
 grep "^total" /verif/coverage/func_all.txt
 echo "functions: $(grep -vc '^total' /verif/coverage/func_all.txt), unreached: $(wc -l < /verif/coverage/unreached.txt)"
-rm -rf "$scratch"
+[ -s /verif/coverage/func_all.txt ] && rm -rf "$scratch"
